@@ -40,6 +40,7 @@ SUT_OUTPUT_FIELDS = {"penalty", "digest", "outcome"}
 # the determinism probe re-runs the first runs of every batch in fresh interpreters that have ONE numba thread
 # (the main batch has 16): "however many threads the compiled kernels use and whether or not the process is fresh"
 DET_PROBE_ENV = {"NUMBA_NUM_THREADS": "1"}
+DETERMINISM_SAMPLE = 32  # evaluation histories are cheap: a fifth of the quick batch is re-run in other interpreters
 THREADS = [1, 2, 3, 5, 16]
 EVAL_SITES = ["objective", "group", "fill_item", "matrix", "residual", "line"]
 
